@@ -445,3 +445,163 @@ func decideC18RawLegacy(c *vh.Case, spec c18RawLegacySpec) {
 	c.Count("raw_legacy_sessions", 1)
 	c.Nontrivial("raw-legacy:" + spec.Requested + spec.Kind + fmt.Sprint(len(spec.Changes)))
 }
+
+// ---- one peer that stops taking notifications must not cost the others theirs ---------------------------------
+
+type c18StuckSpec struct {
+	Shape    string `json:"shape"` // "stuck-peer"
+	Sessions int    `json:"sessions"`
+	Stuck    int    `json:"stuck"`   // index of the session whose transport does not take the notification ...
+	StuckS   int    `json:"stuck_s"` // ... for this many seconds (the write honours its context)
+	Kind     string `json:"kind"`    // tools | prompts | resources | updated (resources/updated to subscribers)
+	Changes  int    `json:"changes"` // changes 5 ms apart (one debounced round)
+}
+
+func genC18Stuck(r *vh.Rand) c18StuckSpec {
+	s := c18StuckSpec{Shape: "stuck-peer", Sessions: r.Range(2, 4), StuckS: []int{3, 12, 30, 3600}[r.Intn(4)], Kind: r.Choose("tools", "prompts", "resources", "updated"), Changes: r.Range(1, 3)}
+	s.Stuck = r.Intn(s.Sessions)
+	return s
+}
+
+func runC18Stuck(c *vh.Case, spec c18StuckSpec) {
+	log := c.Log
+	ctx := context.Background()
+	const uri = "file:///stuck-u"
+	server := mcp.NewServer(&mcp.Implementation{Name: "s", Version: "1"}, &mcp.ServerOptions{
+		SubscribeHandler:   func(context.Context, *mcp.SubscribeRequest) error { return nil },
+		UnsubscribeHandler: func(context.Context, *mcp.UnsubscribeRequest) error { return nil },
+	})
+	server.AddTool(&mcp.Tool{Name: "t0", InputSchema: json.RawMessage(`{"type":"object"}`)}, func(context.Context, *mcp.CallToolRequest) (*mcp.CallToolResult, error) {
+		return &mcp.CallToolResult{}, nil
+	})
+	server.AddPrompt(&mcp.Prompt{Name: "p0"}, func(context.Context, *mcp.GetPromptRequest) (*mcp.GetPromptResult, error) {
+		return &mcp.GetPromptResult{}, nil
+	})
+	server.AddResource(&mcp.Resource{URI: uri, Name: "r0"}, func(context.Context, *mcp.ReadResourceRequest) (*mcp.ReadResourceResult, error) {
+		return &mcp.ReadResourceResult{}, nil
+	})
+	method := "notifications/" + spec.Kind + "/list_changed"
+	if spec.Kind == "updated" {
+		method = "notifications/resources/updated"
+	}
+	var pairs []*vhm.Pair
+	for i := 0; i < spec.Sessions; i++ {
+		i := i
+		note := func() { log.Add("received", "sess", i) }
+		client := mcp.NewClient(&mcp.Implementation{Name: fmt.Sprintf("c%d", i), Version: "1"}, &mcp.ClientOptions{
+			ToolListChangedHandler: func(context.Context, *mcp.ToolListChangedRequest) {
+				if spec.Kind == "tools" {
+					note()
+				}
+			},
+			PromptListChangedHandler: func(context.Context, *mcp.PromptListChangedRequest) {
+				if spec.Kind == "prompts" {
+					note()
+				}
+			},
+			ResourceListChangedHandler: func(context.Context, *mcp.ResourceListChangedRequest) {
+				if spec.Kind == "resources" {
+					note()
+				}
+			},
+			ResourceUpdatedHandler: func(context.Context, *mcp.ResourceUpdatedNotificationRequest) {
+				if spec.Kind == "updated" {
+					note()
+				}
+			},
+		})
+		po := vhm.PairOpts{Kind: "mem", Server: server, Client: client, ClientVersion: "2025-06-18"}
+		if i == spec.Stuck {
+			po.WrapServer = func(inner mcp.Connection) mcp.Connection {
+				fc := vhm.NewFaultConn(inner, vh.NewLog(), "server")
+				fc.BeforeWrite = func(wctx context.Context, msg jsonrpc.Message, _ int) error {
+					if req, ok := msg.(*jsonrpc.Request); ok && req.Method == method {
+						log.Add("stuck-write-begins", "sess", i)
+						select {
+						case <-time.After(time.Duration(spec.StuckS) * time.Second):
+							return nil
+						case <-wctx.Done():
+							log.Add("stuck-write-given-up", "sess", i)
+							return wctx.Err()
+						}
+					}
+					return nil
+				}
+				return fc
+			}
+		}
+		p, err := vhm.Connect(ctx, po)
+		if err != nil {
+			c.Inconclusive("connect %d: %v", i, err)
+			return
+		}
+		pairs = append(pairs, p)
+		if spec.Kind == "updated" {
+			if err := p.CS.Subscribe(ctx, &mcp.SubscribeParams{URI: uri}); err != nil {
+				c.Inconclusive("subscribe %d: %v", i, err)
+				return
+			}
+		}
+	}
+	synctestWait()
+	log.ResetStart()
+	for k := 1; k <= spec.Changes; k++ {
+		log.Add("change", "k", k)
+		switch spec.Kind {
+		case "tools":
+			server.AddTool(&mcp.Tool{Name: fmt.Sprintf("t%d", k), InputSchema: json.RawMessage(`{"type":"object"}`)}, func(context.Context, *mcp.CallToolRequest) (*mcp.CallToolResult, error) {
+				return &mcp.CallToolResult{}, nil
+			})
+		case "prompts":
+			server.AddPrompt(&mcp.Prompt{Name: fmt.Sprintf("p%d", k)}, func(context.Context, *mcp.GetPromptRequest) (*mcp.GetPromptResult, error) {
+				return &mcp.GetPromptResult{}, nil
+			})
+		case "resources":
+			server.AddResource(&mcp.Resource{URI: fmt.Sprintf("file:///stuck-r%d", k), Name: fmt.Sprintf("r%d", k)}, func(context.Context, *mcp.ReadResourceRequest) (*mcp.ReadResourceResult, error) {
+				return &mcp.ReadResourceResult{}, nil
+			})
+		default:
+			go server.ResourceUpdated(ctx, &mcp.ResourceUpdatedNotificationParams{URI: uri})
+		}
+		time.Sleep(5 * time.Millisecond)
+	}
+	// every write to a peer is bounded by the SDK (10 s): after a few times that, everybody has been served
+	time.Sleep(time.Duration(spec.Sessions*10+5) * time.Second)
+	log.Add("settled")
+	for _, p := range pairs {
+		p.CS.Close()
+	}
+	for _, p := range pairs {
+		if p.SS != nil {
+			p.SS.Wait()
+		}
+	}
+	time.Sleep(2 * time.Hour)
+}
+
+func decideC18Stuck(c *vh.Case, spec c18StuckSpec) {
+	got := map[int]int{}
+	var settled int64 = -1
+	for _, e := range c.Log.Events() {
+		switch e.Kind {
+		case "received":
+			if settled < 0 {
+				got[fint(e, "sess")]++
+			}
+		case "settled":
+			settled = e.T
+		}
+	}
+	for i := 0; i < spec.Sessions; i++ {
+		if i == spec.Stuck && spec.StuckS >= 10 {
+			continue // its own notification may be given up after the SDK's bound
+		}
+		if got[i] == 0 {
+			c.Violate("change-notification-lost/"+spec.Kind, "%d legacy sessions; the transport of session %d did not take the notification for %d s; session %d, healthy and entitled, received no %s notification for the %d change(s) within %d s",
+				spec.Sessions, spec.Stuck, spec.StuckS, i, spec.Kind, spec.Changes, spec.Sessions*10+5)
+			return
+		}
+	}
+	c.Count("stuck_peer_cases", 1)
+	c.Nontrivial(fmt.Sprintf("stuck:%d:%d:%d:%s", spec.Sessions, spec.Stuck, spec.StuckS, spec.Kind))
+}
